@@ -15,7 +15,8 @@ DEFAULT_TOL = ("exact",)
 RULE = ("family sweep: 25 paths + 31 near-miss names + random one-edit mutants; every path × partner path × values across the field's range × "
         "4 fixed + seeded random base setups (poling off / auto / apodized, collinear / non-collinear) through SPDCIter 1×1 sweeps both "
         "orders; non-canonical values (angles beyond their interval, negative periods / external angles) on the correspondence side; "
-        "sweep shapes 0×3 … 7×5; jsi_values against individually constructed setups")
+        "sweep shapes 0×3 … 7×5; jsi_values against individually constructed setups; shapes with 63…1025 (thorough: …10000) points around the "
+        "block sizes 64/128/256/512/1024, 1×n, n×1, empty: order and every cell of jsi_values / jsi_values_normalized")
 RESIDUAL = "none beyond model fidelity; jsi_values are compared implementation against itself"
 
 
